@@ -10,4 +10,12 @@ theorem loop_wiring :
     Gen.fullm_tail = "if matches: new_selector[zero_selector] = False ; unmatched = working_set.derive(selector=new_selector) ; weak = grm.PointSelection(corr, selector=np.logical_not(filt)) ; return (matches, unmatched, weak)"
     ∧ Gen.fullm_working_init = "grm.PointSelection(corr, selector=filt)" := ⟨rfl, rfl⟩
 
+/-- further text of the current source that the model takes for granted (glue between library calls: argument lists, output
+allocation, loop bodies) -- a change there is a change of the tie -/
+theorem text_pins_more :
+    Gen.fullm_loop = "new_selector = np.copy(working_set.selector) ; polar_candidate_vectors = candidate_methods[0](working_set, polar_cand) ; match = self._find_best_vector_match(point_selection=working_set, zero=zero, candidates=polar_candidate_vectors) ; if match is None: candidate_methods = candidate_methods[1:] if len(candidate_methods) == 0: break else: continue ; matches.append(match) ; new_selector[match.selector] = False ; if np.count_nonzero(new_selector) >= self.min_match: new_selector[zero_selector] = True working_set = working_set.derive(selector=new_selector) else: break" ∧
+    Gen.fullm_zero_selector = "np.array([np.allclose(corr.centers[i], zero) + np.allclose(corr.refineds[i], zero) for i in range(len(corr))], dtype=bool)" ∧
+    Gen.fullm_methods = "if cand is not None: polar_cand = size_filter(make_polar(np.array(cand)), min_delta=self.min_delta, max_delta=self.max_delta) candidate_methods = [listed, guess] else: polar_cand = None candidate_methods = [guess]" ∧
+    Gen.do_match_body = "match_list = [] ; for i in range(len(polar_vectors)): for j in range(i + 1, len(polar_vectors)): a = polar_vectors[i] b = polar_vectors[j] if not angle_check(np.array([a]), np.array([b]), self.min_angle): continue if a[0] > b[0]: bb = a aa = b else: aa = a bb = b aa, bb = make_cartesian(np.array([aa, bb])) try: match = self._match_all(point_selection=point_selection, zero=zero, a=aa, b=bb) match = self._tumble(point_selection, match) except np.linalg.LinAlgError: continue if match is not None: match_list.append(match) ; return match_list" := ⟨rfl, rfl, rfl, rfl⟩
+
 end C12
